@@ -313,7 +313,12 @@ func runC14(r *rt.Run, tier string) {
 			if len(m.Data) > 0 && t.Bool(3, 4, "fault.indata") {
 				badLo = m.DataOff + t.Draw(len(m.Data), "fault.off")
 			} else {
-				badLo = m.HdrOff + t.Draw(60, "fault.off")
+				// in the member's header; half of the time exactly at its first byte
+				// (the header read then returns no byte at all)
+				badLo = m.HdrOff
+				if !t.Bool(1, 2, "fault.hdrstart") {
+					badLo += t.Draw(60, "fault.off")
+				}
 			}
 			disk.FailRange(badLo, badLo+1+t.Draw(32, "fault.len"))
 			disk.RangeOnce = t.Bool(1, 3, "fault.rangeonce")
